@@ -116,7 +116,10 @@ PROPS = {
                        "(header plus announced length, which must fit), the iterator terminates, stays on option boundaries of "
                        "checked data and is exhausted for good after its first error. Unit `svcparams` (rdata/svcb/params.rs): "
                        "SvcParams::check_slice accepts exactly the well-framed parameter sequences with strictly ascending keys; "
-                       "ValueIter::{new, next_step, next} with the same guarantees as the option iterator. Unit `txtdata`: "
+                       "ValueIter::{new, next_step, next} with the same guarantees as the option iterator; the value types whose "
+                       "iterators `expect` well-formed data (rdata/svcb/value.rs): Alpn, Mandatory, Ipv4Hint, Ipv6Hint -- check_slice "
+                       "accepts exactly the length-prefixed id lists / multiples of the element size, and on such data the "
+                       "iterators' expect()s are unreachable and the iteration stays on element boundaries. Unit `txtdata`: "
                        "Txt::check_slice accepts exactly the non-empty sequences of character strings, Txt::parse yields character "
                        "strings (possibly none), CharStr::skip, and as_flat_slice is total on all of them. Kani covers the unsafe header casts.",
         "not_covered": "RecordIter/AnyRecordIter and into_record (typed RDATA parsers for all types), the individual OPT option "
